@@ -328,3 +328,14 @@ Example o2m_example :
   collapse_t exT Samp (OneToMany exYields [false; false; false; false] false (L [I 80])) false false 1 =
     ROk (mkC (mkT [10; 20; 30] [7; 8] [[2; 7]; [15; 0]; [19; 2]] (Some [mdG 1; md_empty; mdG 2]) None 1) [3; 3]).
 Proof. split; vm_compute; reflexivity. Qed.
+
+(* ---- the tie of the model to the source (DESIGN 3.1 T11): Gen/PartitionGen.v is regenerated from
+   biom/table.py Table.partition by tools/py2v_part on every check; it is the hand-written
+   partition_t on every table, labelling (user function as an oracle list, both dict forms, the
+   rejected dicts), axis and flag pair.  The parameter order is the one of the source. *)
+From BiomV Require Import Gen.PartPrelude Gen.PartitionGen Proofs.GenBridgePartitionProofs.
+
+Theorem partition_is_source : forall t lab a remove_empty ignore_none,
+  gen_partition t lab a remove_empty ignore_none = partition_t t a lab ignore_none remove_empty.
+Proof. exact gen_partition_is_partition_t. Qed.
+Print Assumptions partition_is_source.
